@@ -22,11 +22,11 @@ def kernel_part(ck, tier):
     cfgs = [c for c in S.make_configs("thorough") if c["n"] == 1]
     if tier == "quick":
         cfgs = [c for i, c in enumerate(cfgs) if i % 4 == seed() % 4 or c["T"] == 2 and c["tabname"] == "tent"]
-    regions = {"free": list(range(-3, 5)), "box": list(range(-2, 4)), "nonneg": list(range(0, 6))}
+    regions = {"free": list(range(-3, 5)), "box": list(range(-2, 4)), "nonneg": list(range(0, 6)), "boxnn": list(range(0, 4))}
     # --- specification's own kernel, exported by TLC
     mod = S.MC_TEMPLATE % {"configs": S.tla_configs(cfgs), "tables": S.tla_tables(), "kset": "{0}", "depth": 1}
     mod = mod.replace("====\n", """MCWLo == %d
-KReg(cc) == CASE cc.mode = "free" -> -3..4 [] cc.mode = "box" -> cc.blo..cc.bhi [] cc.mode = "nonneg" -> 0..5
+KReg(cc) == CASE cc.mode = "free" -> -3..4 [] cc.mode = "box" -> cc.blo..cc.bhi [] cc.mode = "nonneg" -> 0..5 [] cc.mode = "boxnn" -> 0..cc.bhi
 KOut(cc, x, k, ui) == LET y == Prop(cc, x + k) IN
       IF AcceptU(cc, Energy(cc, <<y>>) - Energy(cc, <<x>>), ui) THEN y ELSE x
 VARIABLE kc
@@ -77,6 +77,8 @@ KExport == PrintT(ToJson([cf |-> kc.id, tab |-> [x \\in KReg(kc) |-> [k \\in 1..
                 wt.append([1 if x in (c["blo"], c["bhi"]) else 2 for x in reg])
             elif c["mode"] == "nonneg":
                 wt.append([1 if x == 0 else 2 for x in reg])
+            elif c["mode"] == "boxnn":
+                wt.append([1 if x in (0, c["bhi"]) else 2 for x in reg])
             else:
                 wt.append([2 for _ in reg])
         mod2 = ("---- MODULE MC_KernelId ----\nEXTENDS KernelId\nMCNP == %s\nMCObs == %s\nMCEn == %s\nMCWt == %s\n====\n"
@@ -168,5 +170,7 @@ def run(tier):
     # accept/reject decision of the receiving chain needs (trace-validated real runs with forced exchanges)
     from harness import c03
     c03.pt_part(ck, tier, unforced=True)
+    from harness import c09
+    c09.kernel_after_reload_part(ck, tier)
     c03.dtype_part(ck, tier)        # whole-number inputs given as integer arrays: same kernel, same trajectory
     return ck.finish()
